@@ -184,11 +184,18 @@ def extraPolls (s : Schema) (D : Nat) (fresh : Target) : Nat → IterSt → Nat 
     | some (.yield _ it') => let r := extraPolls s D fresh k it'; (r.1 + 1, r.2)
     | _ => extraPolls s D fresh k it
 
-def opIter (s : Schema) (D : Nat) (root : Option KeySrc) (fresh : Target) (polls : Nat) (exact : Bool)
+/-- `root()` applied with each key in turn; `root()` starts from a cleared state, so only its own key matters (an
+earlier root only has to succeed) -/
+def rootAll (s : Schema) (D : Nat) : List KeySrc → IterSt → Except Trav IterSt
+  | [], it => .ok it
+  | ks :: rest, _ =>
+    match IterSt.withRoot s D ks with
+    | .ok it => rootAll s D rest it
+    | .error e => .error e
+
+def opIter (s : Schema) (D : Nat) (roots : List KeySrc) (fresh : Target) (polls : Nat) (exact : Bool)
     (limit : Nat) : String :=
-  let it0 : Except Trav IterSt := match root with
-    | none => .ok (IterSt.init D)
-    | some ks => IterSt.withRoot s D ks
+  let it0 : Except Trav IterSt := rootAll s D roots (IterSt.init D)
   match it0 with
   | .error (.panic _) => "panic"
   | .error e => s!"rooterr {travStr e}"
@@ -243,9 +250,18 @@ def runOp (s : Schema) : List String → String
       match mkTarget tgtName cap' with
       | none => "bad-op"
       | some t =>
-        if root = "-" then opIter s d none t polls (exact == "1") limit
+        -- `-` | `<keyspec>` | `H<pre>;<keyspec>;…` (`pre` calls of `next()` before rooting: irrelevant to `root()`)
+        if root = "-" then opIter s d [] t polls (exact == "1") limit
+        else if root.startsWith "H" then
+          match (root.drop 1).toString.splitOn ";" with
+          | pre :: specs =>
+            match pre.toNat?, specs.mapM keySpec with
+            | some pre, some kss =>
+              if pre > 0 ∧ kss.isEmpty then "bad-op" else opIter s d kss t polls (exact == "1") limit
+            | _, _ => "bad-op"
+          | [] => "bad-op"
         else match keySpec root with
-          | some ks => opIter s d (some ks) t polls (exact == "1") limit
+          | some ks => opIter s d [ks] t polls (exact == "1") limit
           | none => "bad-op"
     | _, _, _, _ => "bad-op"
   | ["meta"] => opMeta s
